@@ -448,6 +448,23 @@ def r7_failed_conversion(ctx):
     _C04.r4_atomic_to(ctx)
 
 
+def r8_dispatch_and_readonly(ctx):
+    """Level arithmetic and conversions are what the unit types define only if (a) every sum/difference reaches the
+    claiming type's add/sub - no path returns before the type dispatch - and (b) a conversion does not write to its
+    operand, so converting the same quantity again gives the same value (shared with C07.R1)."""
+    from . import C07 as _C07
+    q = "src/scinumtools/units/quantity.py"
+    for name in ("_add", "_sub", "_convert"):
+        fn = ctx.fn(q, f"Quantity.{name}")
+        fl = K.first_claim_loop(fn)
+        if fl is None:
+            ctx.unrecognised(q, f"Quantity.{name}", "type dispatch", "first-claim loop over UNIT_TYPES not recognised")
+            continue
+        ctx.check(not fl["returns_before_loop"], q, f"Quantity.{name}", "no result is returned before the unit types were asked (logarithmic and temperature rules cannot be bypassed)",
+                  detail=fl["returns_before_loop"] or None, expected="every return is the claiming type's result")
+    _C07.r1_no_operand_mutation(ctx)
+
+
 RULES = [
     ("C05.R1", "each pairwise temperature method is the affine map alpha*v+beta required by the standard scale relations and the tabulated unit factors (tolerance 1e-9)", r1_temperature_formulas),
     ("C05.R2", "every ordered temperature pair the type claims (touching Cel/degF, identity included) has a conversion method; a missing method is an error", r2_temperature_complete),
@@ -455,5 +472,6 @@ RULES = [
     ("C05.R4", "exponent and reference level of every documented logarithmic unit given the tabulated factor of its linear unit", r4_reference_levels),
     ("C05.R5", "level addition/subtraction is log10(10^(a m) +- 10^(b m))/m after bringing b to a's unit; dimension and unit guards raise", r5_level_addition),
     ("C05.R6", "process lists equal the table rows naming the class; special types precede the standard type; first claiming type wins", r6_tables_agree),
+    ("C05.R8", "every sum/difference/conversion goes through the unit-type dispatch (no early return); conversions do not write to their operand (effect analysis shared with C07.R1)", r8_dispatch_and_readonly),
     ("C05.R7", "a refused temperature/logarithmic conversion leaves the quantity untouched (store-before-raise path rule of to(), shared with C04.R4)", r7_failed_conversion),
 ]
